@@ -155,6 +155,37 @@ def dump_feat(feature: Any, opaque: bool = False) -> Dict[str, Any]:
             "byAS": bool(feature.created_by_antismash), "codon": feature._original_codon_start}
 
 
+def dump_meta(rec: Any) -> Dict[str, Any]:
+    """what the record carries besides sequence and features, as it is handed to the writers"""
+    bio = rec.to_biopython()
+    annotations: Dict[str, Any] = {}
+    for key, value in bio.annotations.items():
+        if key == "references":
+            value = [sorted((k, [str(x) for x in v] if k == "location" else v) for k, v in ref.__dict__.items()) for ref in value]
+        annotations[key] = value
+    return {"id": bio.id, "name": bio.name, "description": bio.description, "dbxrefs": list(bio.dbxrefs),
+            "annotations": annotations, "letter_annotations": dict(bio.letter_annotations),
+            "transl_table": rec.transl_table}
+
+
+def meta_diff(before: Dict[str, Any], after: Dict[str, Any], textual: bool) -> str:
+    """'' when the record-level data is unchanged; the GenBank parser adds annotations of its own (accessions,
+    sequence_version, data_file_division, …): on that path every key the record had must come back unchanged"""
+    out = []
+    for key in ("id", "name", "description", "dbxrefs", "letter_annotations", "transl_table"):
+        if before[key] != after[key]:
+            out.append(f"{key}: {before[key]!r} -> {after[key]!r}")
+    keys = set(before["annotations"]) | (set() if textual else set(after["annotations"]))
+    for key in sorted(keys):
+        a, b = before["annotations"].get(key), after["annotations"].get(key)
+        if key == "references":
+            # the JSON form always has the key: no references and an empty list of them are the same thing
+            a, b = a or [], b or []
+        if a != b:
+            out.append(f"annotation {key}: {a!r} -> {b!r}")
+    return "; ".join(out)
+
+
 def dump_side(area: Any) -> Any:
     extra = getattr(area, "extra_qualifiers", None)
     return None if extra is None else qlist(extra)
@@ -298,12 +329,24 @@ def build_record(case: Dict[str, Any]) -> Any:
     n = case["len"]
     srng = random.Random(n)
     seq = Seq("".join(srng.choice("ACGT") for _ in range(n)))
-    bio = SeqRecord(seq, id="REC1", name="REC1", description="generated record")
+    meta = case.get("meta", {})
+    bio = SeqRecord(seq, id="REC1", name=meta.get("name", "REC1"), description=meta.get("description", "generated record"),
+                    dbxrefs=list(meta.get("dbxrefs", [])))
     bio.annotations["topology"] = "circular" if case["circ"] else "linear"
     bio.annotations["molecule_type"] = "DNA"
     bio.annotations["source"] = "Streptomyces generatus"
     bio.annotations["organism"] = "Streptomyces generatus"
     bio.annotations["date"] = "01-JAN-2000"
+    for key, value in meta.get("annotations", []):
+        bio.annotations[key] = list(value) if isinstance(value, list) else value
+    if meta.get("references"):
+        from Bio.SeqFeature import Reference
+        bio.annotations["references"] = []
+        for lo, hi, authors, title, journal, pubmed in meta["references"]:
+            ref = Reference()
+            ref.location = [FeatureLocation(lo, hi)]
+            ref.authors, ref.title, ref.journal, ref.pubmed_id = authors, title, journal, pubmed
+            bio.annotations["references"].append(ref)
     for f in case.get("input", []):
         bio.features.append(SeqFeature(_bio_location(f["loc"]), type=f["type"],
                                        qualifiers={k: list(v) for k, v in f["quals"]}))
@@ -515,6 +558,26 @@ class C10(Property):
         case: Dict[str, Any] = {"f": "record", "len": n, "circ": circ, "input": [], "annot": [], "domains": [],
                                 "modules": [], "prepeptides": [],
                                 "generics": [], "subs": [], "protos": [], "cands": "auto", "regions": True}
+        # ---- what the record carries besides features (header of the GenBank file, top level of the JSON)
+        if rng.random() < 0.6:
+            meta: Dict[str, Any] = {"name": rng.choice(["REC1", "NAME_2", "scaffold12"]),
+                                    "description": rng.choice(["generated record", "Streptomyces generatus strain X1, complete genome.",
+                                                               "a description long enough to be continued on a second line of the "
+                                                               "DEFINITION block, with commas; and more", "x"]),
+                                    "dbxrefs": rng.choice([[], ["BioProject:PRJNA1"], ["BioProject:PRJNA1", "BioSample:SAMN2"]]),
+                                    "annotations": []}
+            if rng.random() < 0.5:
+                meta["annotations"].append(["taxonomy", rng.choice([["Bacteria", "Actinomycetota"], ["Bacteria", "Actinomycetota", "Streptomyces"]])])   # (a one-word lineage is read as part of the organism by Biopython)
+            if rng.random() < 0.4:
+                meta["annotations"].append(["keywords", rng.choice([["kw1"], ["kw1", "key word two"], [""]])])
+            if rng.random() < 0.4:
+                meta["annotations"].append(["comment", rng.choice(["one line", "line one\nline two"])])
+            if rng.random() < 0.3:
+                meta["annotations"].append(["data_file_division", rng.choice(["BCT", "UNK", "PLN"])])
+            if rng.random() < 0.3:
+                meta["references"] = [[0, n, "A B, C D", "a title", "J. Irr. Res. 1 (2000)", "12345"]][:rng.choice([1, 1])] + \
+                    ([[0, n // 2, "E F", "Direct Submission", "Submitted (01-JAN-2000)", ""]] if rng.random() < 0.5 else [])
+            case["meta"] = meta
         # ---- input features (as parsed from a GenBank input file)
         if rng.random() < 0.7:
             case["input"].append({"type": "source", "loc": simple(0, n, 1),
@@ -1257,6 +1320,8 @@ class C10(Property):
                     "w2": dump_bios(re_json.to_biopython()), "text_fixed": text1 == text2, "json_fixed": json1 == json2,
                     "seq_same": str(rec.seq) == str(re_gb.seq) == str(re_json.seq),
                     "topology_same": rec.is_circular() == re_gb.is_circular() == re_json.is_circular(),
+                    "meta_gb": meta_diff(dump_meta(rec), dump_meta(re_gb), True),
+                    "meta_json": meta_diff(dump_meta(rec), dump_meta(re_json), False),
                     "id_same": rec.id == re_gb.id == re_json.id,
                     "text_diff": "" if text1 == text2 else _first_diff(text1, text2)}
         except Exception as exc:  # pylint: disable=broad-except
@@ -1400,6 +1465,7 @@ class C10(Property):
         # ---- spec on the implementation's outputs
         bad = [k for k in ("spec_gb", "spec_json") if drv.get(k) is not True]
         bad += [k for k in ("text_fixed", "json_fixed", "seq_same", "topology_same", "id_same") if not obs[k]]
+        bad += [f"record data after {path}: {obs[k]}" for k, path in (("meta_gb", "GenBank"), ("meta_json", "JSON")) if obs[k]]
         # every attribute of every feature that is not an area (the classes the model treats as opaque
         # qualifier text), incl. the operator of compound locations and the parts of prepeptides
         diff_gb = attrs_diff(state["attrs"], obs["re_gb"]["attrs"], textual=True)
